@@ -100,11 +100,13 @@ func c20Op(r *sim.Run) c20op {
 	mapf := func(v int) int { return v*3 + a }
 	switch k {
 	case 0:
-		return c20op{fmt.Sprintf("Take(%d)", a), func(it fp.Iterator[int]) fp.Iterator[int] { return it.Take(a) }, func(xs []int) []int { return xs[:min(a, len(xs))] }}
+		n := a - 1 // -1..3: a negative count takes nothing
+		return c20op{fmt.Sprintf("Take(%d)", n), func(it fp.Iterator[int]) fp.Iterator[int] { return it.Take(n) }, func(xs []int) []int { return xs[:max(0, min(n, len(xs)))] }}
 	case 1:
 		return c20op{fmt.Sprintf("TakeWhile(p%d)", a), func(it fp.Iterator[int]) fp.Iterator[int] { return it.TakeWhile(p) }, func(xs []int) []int { return refTakeWhile(xs, p) }}
 	case 2:
-		return c20op{fmt.Sprintf("Drop(%d)", a), func(it fp.Iterator[int]) fp.Iterator[int] { return it.Drop(a) }, func(xs []int) []int { return xs[min(a, len(xs)):] }}
+		n := a - 1 // -1..3: a negative count drops nothing
+		return c20op{fmt.Sprintf("Drop(%d)", n), func(it fp.Iterator[int]) fp.Iterator[int] { return it.Drop(n) }, func(xs []int) []int { return xs[max(0, min(n, len(xs))):] }}
 	case 3:
 		return c20op{fmt.Sprintf("DropWhile(p%d)", a), func(it fp.Iterator[int]) fp.Iterator[int] { return it.DropWhile(p) }, func(xs []int) []int { return refDropWhile(xs, p) }}
 	case 4:
